@@ -218,7 +218,7 @@ def tla_layout(lay):
         regs.append({"kind": r["kind"], "width": r["width"], "reverse": r["reverse"], "parent": r["parent"], "subs": r["subs"], "rso": r["rso"],
                      "fields": [{"off": f["off"], "width": f["width"], "shr": f["shr"], "reset": f["reset"], "hidden": bool(f["hidden"])} for f in r["fields"]],
                      "off": r["off"], "hidden": bool(r["hidden"]), "preset": r["preset"], "comp": r["comp"] if r["comp"] in ("", "inv_hi16", "inv_lo8") else "", "cond": r["cond"],
-                     "declw": r.get("decl_width", 0), "subsw": r.get("subs_width", 0), "nmiss": len(r.get("missing_subs", [])),
+                     "declw": r.get("decl_width", 0), "subsw": r.get("subs_width", 0), "nmiss": len(r.get("missing_subs", [])), "altw": list(r.get("altw", [])),
                      "presetdc": bool(r.get("preset_ambiguous")) or r["comp"].startswith("unknown"), "binfree": bool(r.get("binfree", False))})
     return {"regs": regs, "size": lay.get("size", 0), "hasbin": bool(lay.get("hasbin", True)), "seal": lay.get("seal", []), "sizefld": lay.get("sizefld", {"r": 0, "f": 0}),
             "kind": lay.get("kind", ""), "leaves": [i for i, r in enumerate(regs, 1) if r["kind"] == "leaf"],
